@@ -43,6 +43,9 @@ def run(ctx):
     filing_lemma(ctx, q, registry, mf)
     header_lemma(ctx, q, S)
     emission_order_lemma(ctx, registry, mf)
+    # lemma 1 for the context-dependent literals (OpConstant / OpSpecConstant / OpSwitch): the parser keeps every word it reads
+    import c10
+    c10.literal_lemmas(ctx, q, S, rp)
     P = tables.parse_operand_arms()
     c02.native_roundtrip(ctx, S, rp, P)
     c06.native_module_roundtrip(ctx, rp, loaded_only=True)
